@@ -387,7 +387,7 @@ def apply_string_level_irrelevant(url, name, draw):
             return url
         head, _, rest = url.partition("?")
         q, h, frag = rest.partition("#")
-        ent = draw(st.sampled_from(["&amp;", "&AMP;", "&amp%3B", "&amp%3b"]))
+        ent = draw(st.sampled_from(["&amp;", "&amp;", "&AMP;", "&amp%3B", "&amp%3b", "&%61mp;", "&a%6Dp%3b", "&A%4d%50;"]))   # the entity under every escape spelling
         parts = q.split("&")
         out = parts[0]
         for p in parts[1:]:
